@@ -343,7 +343,8 @@ TLES = {
 @st.composite
 def attached_case(draw):
     hyp = draw(st.integers(0, 9)) < 2
-    ref = draw(st.sampled_from(["kepler", "kepler", "kepler", "tle", "tle", "statevector"]))
+    ref = draw(st.sampled_from(["kepler", "kepler", "kepler", "tle", "tle", "statevector", "ephem", "ephem", "ephem-station",
+                                "keplernum-burn"]))
     ops = []
     for _ in range(draw(st.integers(3, 6))):
         ops.append(dict(op=draw(st.sampled_from(["own", "own", "state", "state", "round", "via", "repeat"])),
@@ -358,7 +359,14 @@ def attached_case(draw):
                 parent=draw(st.sampled_from(PARENTS)),
                 ref_form=draw(st.sampled_from(["cartesian", "cartesian", "cartesian", "keplerian"])),
                 dts=[draw(st.one_of(st.just(0.0), fu(-3000.0, 3000.0))), draw(fu(-3000.0, 3000.0))],
-                t=draw(go.uniform_int(0, 10 * 365 * 86400 * 10**6)), sep=draw(vec3(-1.0, 5.0)), ops=ops)
+                t=draw(go.uniform_int(0, 10 * 365 * 86400 * 10**6)), sep=draw(vec3(-1.0, 5.0)), ops=ops,
+                # "ephem": the reference is a table (60 s nodes, asked at its nodes only: C09) held in ref_frame, or in the
+                # topocentric frame of a station ("ephem-station": a tracking-style table, centre not the Earth's);
+                # "keplernum-burn": a numerically propagated orbit that is given its maneuver AFTER the frame was attached
+                nodes=[draw(st.integers(-50, 50)), draw(st.integers(-50, 50))],
+                station=dict(lat=draw(fu(-80.0, 80.0)), lon=draw(fu(-179.0, 179.0)), alt=draw(fu(0.0, 3000.0))),
+                burn=dict(dv=draw(vec3(-1.0, 1.5)), tag=draw(st.sampled_from([None, "TNW", "QSW"])),
+                          how=draw(st.sampled_from(["assign", "append", "assign-single"]))))
 
 
 def check_attached(case):
@@ -380,11 +388,24 @@ def check_attached(case):
         text = "\n".join(TLES[case["tle"]])
         ref = Tle(text).orbit()
         twin = Tle(text).orbit()          # an untouched twin gives the reference states (SGP4: C07)
-        R = "TEME"
+        R = B = "TEME"
         d0 = ref.date
         ref_form = "tle"
     else:
         R = case["ref_frame"]
+        B = R                                # the frame the two-body motion of the reference is defined in
+        if kind == "ephem-station":
+            from beyond.frames.stations import create_station
+
+            B = "EME2000"
+            st_ = case["station"]
+            R = f"{name}T"
+            create_station(R, (st_["lat"], st_["lon"], st_["alt"]))
+        if kind in ("ephem", "ephem-station", "keplernum-burn"):
+            el = dict(el, i=min(max(el["i"], 0.05), math.pi - 0.05))
+            if kind == "keplernum-burn":
+                # a bound orbit above the ground for the half hour it is integrated over
+                el = dict(case["other"], i=min(max(case["other"]["i"], 0.05), math.pi - 0.05))
         if kind == "kepler":
             # the reference goes through the library's Kepler propagator, i.e. through keplerian elements: keep them regular
             el = dict(el, i=min(max(el["i"], 0.05), math.pi - 0.05))
@@ -393,7 +414,24 @@ def check_attached(case):
         c0 = cart(el, mu)                 # coordinates in the axes of R
         d0 = mkdate(case["t"])
         ref_form = case["ref_form"]
-        ref = StateVector(c0, d0, "cartesian", R).copy(form=ref_form)
+        if kind in ("ephem", "ephem-station"):
+            from beyond.orbits import Ephem
+
+            ref_form = "cartesian"
+            pts = []
+            for q in range(-55, 56):
+                p = StateVector(tb.propagate_uv(c0, 60.0 * q, mu), d0 + timedelta(seconds=60.0 * q), "cartesian", B)
+                pts.append(p if B == R else p.copy(frame=R))
+            ref = Ephem(pts)
+        elif kind == "keplernum-burn":
+            from beyond.env.solarsystem import get_body
+            from beyond.orbits.man import ImpulsiveMan
+            from beyond.propagators.keplernum import KeplerNum
+
+            ref_form = "cartesian"
+            ref = StateVector(c0, d0, "cartesian", R).as_orbit(KeplerNum(timedelta(seconds=60), get_body("Earth")))
+        else:
+            ref = StateVector(c0, d0, "cartesian", R).copy(form=ref_form)
         if kind == "kepler":
             ref = ref.as_orbit("Kepler")
         k = 1 / abs(1 - el["e"])
@@ -415,6 +453,16 @@ def check_attached(case):
     # a bare state has no motion and belongs to its own date (which day's TEME / MOD axes its coordinates refer to
     # at another date is not defined): it is used at that date only
     dts = case["dts"] if kind != "statevector" else [0.0, 0.0]
+    if kind in ("ephem", "ephem-station"):
+        dts = [60.0 * q for q in case["nodes"]]
+    if kind == "keplernum-burn":
+        dts = [600.0 + abs(x) / 3 for x in dts]
+        burn = ImpulsiveMan(d0 + timedelta(seconds=300), case["burn"]["dv"], frame=case["burn"]["tag"])
+        # the burn is planned after the frame: assigned, appended to the (empty) list, or given as the object itself
+        if case["burn"]["how"] == "append":
+            ref.maneuvers.append(burn)
+        else:
+            ref.maneuvers = [burn] if case["burn"]["how"] == "assign" else burn
     dates = [d0 + timedelta(seconds=x) for x in dts]
 
     def centre_in(j, target):
@@ -423,9 +471,9 @@ def check_attached(case):
         if kind == "tle":
             c = twin.propagate(dates[j]).copy(form="cartesian")
         else:
-            cr = tb.propagate_uv(c0, dt, mu) if kind == "kepler" else c0
-            c = StateVector(cr, dates[j], "cartesian", R)
-        return np.asarray((c if target == R else c.copy(frame=target)).base, float)
+            cr = tb.propagate_uv(c0, dt, mu) if kind != "statevector" else c0
+            c = StateVector(cr, dates[j], "cartesian", B)
+        return np.asarray((c if target == B else c.copy(frame=target)).base, float)
 
     def expected(j, x_state):
         """x_state: fresh StateVector in a built-in frame -> coordinates in the attached frame"""
@@ -450,6 +498,8 @@ def check_attached(case):
             else:
                 what, op = last
                 j = op["date"]
+        if kind == "keplernum-burn":
+            what = "own"   # the burnt trajectory has no closed form here: the orbit must sit at the origin of its own frame
         trail.append(f"{what}@{j}")
         G = {"parent": P, "ref": R}.get(op["given"], op["given"])
         if what == "own":
